@@ -326,7 +326,86 @@ func prSameUID(a []string) string {
 	return fmt.Sprintf("first=%s second=%s event=%s unregister=%s", first, second, ev, left)
 }
 
+// pr.twosubs: one client follows two properties of an object and gives one of them up: the other goes on announcing
+// its accepted writes
+func prTwoSubs(a []string) string {
+	log.SetOutput(ioutil.Discard)
+	l := &auListener{ch: make(chan qnet.Stream), closed: make(chan struct{})}
+	srv, err := bus.StandAloneServer(l, bus.Yes{}, bus.PrivateNamespace())
+	if err != nil {
+		return "setup-error:" + err.Error()
+	}
+	defer func() {
+		done := make(chan struct{})
+		go func() { srv.Terminate(); close(done) }()
+		select {
+		case <-done:
+		case <-time.After(3 * time.Second):
+		}
+	}()
+	var meta object.MetaObject
+	meta.Properties = map[uint32]object.MetaProperty{200: {Uid: 200, Name: "level", Signature: "i"}, 201: {Uid: 201, Name: "gain", Signature: "i"}}
+	custom := bus.NewBasicObject(prNoop{}, meta, func(string, []byte) error { return nil })
+	svc, err := srv.NewService("Custom", custom)
+	if err != nil {
+		return "setup-error:" + err.Error()
+	}
+	sid := svc.ServiceID()
+	p, q := gonet.Pipe()
+	l.ch <- qnet.ConnStream(q)
+	ep := qnet.NewEndPoint(qnet.ConnStream(p))
+	defer ep.Close()
+	if err := bus.AuthenticateUser(ep, "", ""); err != nil {
+		return "setup-error:" + err.Error()
+	}
+	cl := bus.NewClient(bus.NewContext(ep))
+	m, err := bus.GetMetaObject(cl, sid, 1)
+	if err != nil {
+		return "setup-error:" + err.Error()
+	}
+	proxy := bus.NewProxy(cl, m, sid, 1)
+	_, level, err := proxy.SubscribeID(200)
+	if err != nil {
+		return "setup-error:" + err.Error()
+	}
+	cancelGain, gain, err := proxy.SubscribeID(201)
+	if err != nil {
+		return "setup-error:" + err.Error()
+	}
+	upd := func(id uint32, v int64) {
+		_, raw := prEncode("i", v)
+		go custom.UpdateProperty(id, "i", raw)
+	}
+	get := func(ch chan []byte) string {
+		select {
+		case b, ok := <-ch:
+			if !ok {
+				return "closed"
+			}
+			return fmt.Sprint(prDecodeBytes("i", b))
+		case <-time.After(2 * time.Second):
+			return "none"
+		}
+	}
+	upd(200, 1)
+	upd(201, 2)
+	r1, r2 := get(level), get(gain)
+	cancelGain()
+	upd(200, 3)
+	r3 := get(level)
+	upd(200, 4)
+	r4 := get(level)
+	return fmt.Sprintf("level=%s gain=%s after-cancel level=%s level=%s", r1, r2, r3, r4)
+}
+
 func init() {
+	executors["pr.twosubs"] = func(a []string) string {
+		r := prTwoSubs(a)
+		if r != "level=1 gain=2 after-cancel level=3 level=4" {
+			lastFailDetail = r
+		}
+		return r
+	}
 	executors["pr.sameuid"] = func(a []string) string {
 		r := prSameUID(a)
 		if r != "first=accepted second=refused event=42 unregister=answered" {
